@@ -75,6 +75,9 @@ func GenerateNasEncDec() {
 		for _, msgDef := range type2Msg {
 			if msgDef != nil && msgDef.isGMM == isGMM {
 				fmt.Fprintf(fOut, "case MsgType%s:\n", msgDef.structName)
+				fmt.Fprintf(fOut, "if a.%sMessage.%s == nil {\n", gmmGsm, msgDef.structName)
+				fmt.Fprintf(fOut, "return fmt.Errorf(\"NAS Encode Fail: %s message body is nil\")\n", msgDef.structName)
+				fmt.Fprintf(fOut, "}\n")
 				fmt.Fprintf(fOut, "return a.%sMessage.Encode%s(buffer)\n", gmmGsm, msgDef.structName)
 			}
 		}
